@@ -127,7 +127,9 @@ class C10:
             all_fields = tuple(tfields) + tuple(ffields) + tuple(sample_fields)
             for adjv, ne1, secs in itertools.product((True, False), (True, False), secs_cases):
                 penv = {adj: adjv, ("cmp", "ne", te, ("const", 1)): ne1, ("cmp", "eq", te, ("const", 1)): not ne1,
-                        ("cmp", "ne", te, ("const", 1.0)): ne1, ("cmp", "eq", te, ("const", 1.0)): not ne1}
+                        ("cmp", "ne", te, ("const", 1.0)): ne1, ("cmp", "eq", te, ("const", 1.0)): not ne1,
+                        # Recording.time_expansion is a declared float (never None)
+                        ("cmp", "is", te, NONE): False, ("cmp", "isnot", te, NONE): True}
                 for i_, f in enumerate(tfields):
                     penv[("cmp", "is", ("attr", obj, f), NONE)] = not secs[i_]
                     penv[("cmp", "isnot", ("attr", obj, f), NONE)] = secs[i_]
@@ -251,7 +253,7 @@ class C10:
                     f"a {bad[0]} with cast_to_bbox={bad[1]}, raise_on_time_geometries={bad[2]} is {'rejected' if bad[3] else 'converted'} "
                     f"(documented: reject non-boxes unless casting; reject time-only geometries when asked)", s.node.lineno,
                     witness={"type": bad[0], "cast": bad[1], "raise_on_time": bad[2]})
-        if len(s.returns) == 1 and s.returns[0].term == ("call", cb, (g,), ()):
+        if s.returns and all(r.term == ("call", cb, (g,), ()) for r in s.returns):
             ctx.ok("R10.2", site, "returns compute_bounds(geometry)")
         else:
             ctx.bad("R10.2", file, "convert_geometry_to_bbox", "return compute_bounds(geometry)", "the box must be the geometry's bounds", s.node.lineno)
@@ -519,7 +521,8 @@ class C10:
                             "an unknown annotation format is not rejected", s.node.lineno)
                     okd = False
                 continue
-            kws = [set(callkw(r.term)) if r.term[0] == "call" else set() for r in rets]
+            # keywords given through a dictionary chosen by the format: under this format the other one is absent
+            kws = [{k_ for k_, v_ in callkw(peval(r.term, env)).items() if v_ != ("absent",)} if r.term[0] == "call" else set() for r in rets]
             other = "seq" if want_kw == "bboxes" else "bboxes"
             if rais or len(rets) != 1 or want_kw not in kws[0] or other in kws[0]:
                 ctx.bad("R10.9", file, "annotation_from_clip_annotation", f"annotation_fmt={val!r}",
@@ -794,6 +797,8 @@ class C10:
         checks = []
         outs, nxt = run2(fn=True, sel=True, idx=True)
         checks.append(("seq_label_fn given", outs, lambda o: o == [("call", Q["seq_label_fn"], (tags,), ())], "seq_label_fn(tags)"))
+        outs, _ = run2(fn=True, empty=True, sel=True, found=False, idx=True)
+        checks.append(("seq_label_fn given, no tags", outs, lambda o: o == [("call", Q["seq_label_fn"], (tags,), ())], "seq_label_fn(tags) (the caller's function decides about an empty tag list too)"))
         outs, _ = run2(empty=True, sel=True, found=False, idx=True)  # among no tags none is found
         checks.append(("no tags", outs, lambda o: o == [Q["empty_label"]], "empty_label"))
         outs, nxt = run2(sel=True, found=True, idx=True)
